@@ -607,12 +607,12 @@ pub fn run(tier: Tier, seed: u64) -> i32 {
         run.enumerate("stress-shapes", stress_items(), true, case_stress);
     }
     if !run.failed() {
-        run.random("binary", tier.pick(1_500, 30_000), 700, case);
+        run.random("binary", tier.pick(1_500, 20_000), 700, case);
     }
     run.shards = nshards();
     run.shrink_iters = 2000;
     if !run.failed() {
-        run.random("library", tier.pick(30_000, 1_500_000), 700, case_lib);
+        run.random("library", tier.pick(30_000, 500_000), 700, case_lib);
     }
     if tier == Tier::Thorough && !run.failed() {
         run.fuzz("libfuzzer", 60_000, 8, 600, fuzz_case);
